@@ -1,6 +1,6 @@
 """Source of MANIFEST.json (run ./tools_manifest.py after editing)."""
 
-FIX_COMMITS = ['aa8a796', 'e19c32a', '9330350', '8599158', '33efd15', '1cc24ab', '668079e', 'f34decb', 'f0c9eb4', 'f63685a', 'f41aea7', '4c9fae6', '89fa7aa', '44add83', '3e6a5c9', '24d79b7', '9b58b2c', '783304e', 'f6c2ece', '8bd765a', 'debc858', '096bb2b', '9bcdd72', 'af4b9f6', 'cef733f', 'a117c80', 'b164430', '2fdc9c3', '1f4ac19', '0565888', '7625e32', '6c98e8e', '87aecdb', 'b9b504c', 'ea08a4e', '211c6bc']
+FIX_COMMITS = ['aa8a796', 'e19c32a', '9330350', '8599158', '33efd15', '1cc24ab', '668079e', 'f34decb', 'f0c9eb4', 'f63685a', 'f41aea7', '4c9fae6', '89fa7aa', '44add83', '3e6a5c9', '24d79b7', '9b58b2c', '783304e', 'f6c2ece', '8bd765a', 'debc858', '096bb2b', '9bcdd72', 'af4b9f6', 'cef733f', 'a117c80', 'b164430', '2fdc9c3', '1f4ac19', '0565888', '7625e32', '6c98e8e', '87aecdb', 'b9b504c', 'ea08a4e', '211c6bc', '03aaba3']
 
 _ALL = ['C%02d' % i for i in range(1, 21)]
 
